@@ -148,8 +148,8 @@ CHECKS = {
         design="2/C09"),
     "C05": dict(
         technique="strided / boundary-targeted generation of instants, round-trip and metamorphic (conversion-invariance) oracles",
-        text="33 manual (std,dst) offset pairs x epoch seconds at stride 4099 (thorough: stride 1 for 8 pairs over the whole valid "
-             "int32 range, stride 7 for the rest) plus every UTC and local day boundary +-3 s; every zone of both registries (direct "
+        text="33 manual (std,dst) offset pairs x epoch seconds at stride 4099 (thorough: stride 1 for 2 pairs over the whole valid "
+             "int32 range, stride 61 for the rest) plus every UTC and local day boundary +-3 s; every zone of both registries (direct "
              "and manager-created) x every transition +-2 s, surrounding midnights, year ends and a 7919 s grid. Identities checked: "
              "round trip, Unix variants (+946684800), convertToTimeZone / convertToTimeOffset keep the instant, compareTo orders by "
              "instant across zones and inside one zone across fall-back transitions. ~4.7e9 relation instances per quick run.",
